@@ -182,6 +182,32 @@ def flags_ok(s: str, fi: int) -> bool:
 
 FLAG_ALPHA = ["a", "+", "~", "|", "(", "[", "]", ")", "b", ":"]  # the first __M__ symbols are used
 
+WARMUP = ["a", "y ~ a | b", "[ a ~ b ] + c", "a + ("]  # what the one parser object parsed before it was reconfigured
+
+
+def _outcome(parser, s):
+    from formulaic.formula import Formula
+
+    try:
+        return repr(Formula.from_spec(s, parser=parser, context={"__formulaic_variables_available__": list(pc.AVAILABLE)}))
+    except FormulaParsingError as e:
+        return f"<{type(e).__name__}>"
+
+
+def flag_switch(f1: int, f2: int, w: int, k0: int, k1: int, k2: int) -> bool:
+    """
+    pre: 0 <= f1 < 8 and 0 <= f2 < 8 and 0 <= w < 4 and 0 <= k0 < 7 and 0 <= k1 < 7 and 0 <= k2 < 7 and f2 == __SHARD__
+    post: _
+    """
+    # one parser object with a history: configured for F1, used, reconfigured to F2 - it then parses like a parser born with F2
+    f1, f2, w = _pick(f1, 0, 7), _pick(f2, 0, 7), _pick(w, 0, 3)
+    s = " ".join(FLAG_ALPHA[_pick(k, 0, 6)] for k in (k0, k1, k2))
+    used = DefaultFormulaParser(feature_flags=set(f.lower() for f in FLAGSETS[f1]))
+    _outcome(used, WARMUP[w])
+    used.set_feature_flags(set(f.lower() for f in FLAGSETS[f2]))
+    fresh = DefaultFormulaParser(feature_flags=set(f.lower() for f in FLAGSETS[f2]))
+    return _outcome(used, s) == _outcome(fresh, s)
+
 
 def flags3(k0: int, k1: int, k2: int, k3: int, fi: int) -> bool:
     """
@@ -247,6 +273,9 @@ def explain(fname, call):
         if fname in ("err3", "err4"):
             s = " ".join(CUT20[k] for k in a)
             return f"{classify(s)}: formula {s!r}"
+        if fname == "flag_switch":
+            s = " ".join(FLAG_ALPHA[k] for k in a[3:6])
+            return f"parser-history: formula {s!r}: a parser configured for {FLAGSETS[a[0]]}, used on {WARMUP[a[2]]!r} and reconfigured to {FLAGSETS[a[1]]} parses differently from a fresh parser with those flags"
         if fname == "pyfrag":
             s = PYCTX[a[1]].replace("{}", PYFRAGS[a[0]])
             return f"{classify(s, PYFLAGS[a[2]], bool(a[3]))}: formula {s!r} (flags {PYFLAGS[a[2]]}, include_intercept={bool(a[3])})"
